@@ -325,7 +325,11 @@ func (g *Gen) Case() *Case {
 				rmAt = rapid.IntRange(0, k-1).Draw(t, "rmat")
 			}
 			longAt := -1
-			if g.pct("longpause", g.cfg.PLongPause) {
+			plong := g.cfg.PLongPause
+			if os.Getenv("VERIF_TIER") == "thorough" {
+				plong = (plong + 1) / 2 // 120 times the cases: half the rate keeps the tier inside its time cap
+			}
+			if g.pct("longpause", plong) {
 				longAt = rapid.IntRange(0, k-1).Draw(t, "longat")
 			}
 			for i := 0; i < k; i++ {
